@@ -30,6 +30,11 @@ def scenarios(tier):
     S.append(scenario('fd_np3', dict(NP=3, MAXITER=2, TEND=12), fd=(False, True), view='view', explore=1200, mc_workers=8))
     S.append(scenario('fd_np2_gs_collupd', dict(NP=2, MAXITER=3, TEND=8, JAC=False, ENDDEP=True), fd=(False, True), view='view',
                       explore=800, mc=False))
+    # a controller object that was used before: its steps hold left-over step sizes (an adaptive run whose last block was shorter
+    # than NP); the next run must still tile the time axis
+    S.append(scenario('reuse_np4', dict(NP=4, MAXITER=1, T0=40, TEND=64, DT0=4, REUSE=True), rs=(False, True), dtm=(0, 1), view='view',
+                      explore=600, mc=False))
+    S.append(scenario('reuse_np3', dict(NP=3, MAXITER=2, T0=24, TEND=44, DT0=4, REUSE=True), view='view', explore=300, mc=False))
     # TLC-generated behaviours replayed on the code
     S.append(scenario('gen_np2_rs', dict(NP=2, MAXITER=1, TEND=8, DT0=4, MAXR=1), rs=(False, True), dtm=(0, 1), view='view',
                       constraints=['nblk <= 2'], gen='all'))
